@@ -64,7 +64,7 @@ theorem get?_filter (q : GoString → Bool) (m : GoMap β) (k : GoString) :
 
 /-- `check`'s first half for one of the two maps of the type: give every entry that
 has no value its zero value. -/
-theorem get?_fill (nm : β → GoString) (z : β → GoVal) (m : GoMap β)
+theorem get?_fill_c19 (nm : β → GoString) (z : β → GoVal) (m : GoMap β)
     (hk : ∀ p ∈ m, p.1 = nm p.2) (d : GoMap GoVal) (f : GoString) :
     get? (m.foldl (fun d p => if has d (nm p.2) then d else set d (nm p.2) (z p.2)) d) f =
       match get? d f with
@@ -131,7 +131,7 @@ theorem isField_false_get? {t : Typ} {f : GoString} (h : isField t f = false) :
 end Spec
 open Spec
 
-theorem Soft.fields_eq {t : Typ} (ht : TypKeyed t) : Soft.fields t = t.attrs.keys ++ t.rels.keys := by
+theorem Soft.fields_eq_c19 {t : Typ} (ht : TypKeyed t) : Soft.fields t = t.attrs.keys ++ t.rels.keys := by
   unfold Soft.fields GoMap.vals GoMap.keys
   rw [List.map_map, List.map_map]
   congr 1
@@ -140,7 +140,7 @@ theorem Soft.fields_eq {t : Typ} (ht : TypKeyed t) : Soft.fields t = t.attrs.key
 
 theorem Soft.contains_fields {t : Typ} (ht : TypKeyed t) (f : GoString) :
     (Soft.fields t).contains f = isField t f := by
-  rw [Bool.eq_iff_iff, isField_iff, Soft.fields_eq ht]
+  rw [Bool.eq_iff_iff, isField_iff, Soft.fields_eq_c19 ht]
   simp
 
 theorem Soft.fields_length (t : Typ) :
@@ -163,14 +163,14 @@ theorem Soft.checkData_eq (t : Typ) (d : GoMap GoVal) :
       if (Soft.fields t).length < (Soft.fill t d).length
       then (Soft.fill t d).filter (fun p => (Soft.fields t).contains p.1) else Soft.fill t d := rfl
 
-theorem Soft.get?_fill {t : Typ} (ht : TypKeyed t) (d : GoMap GoVal) (f : GoString) :
+theorem Soft.get?_fill_c19 {t : Typ} (ht : TypKeyed t) (d : GoMap GoVal) (f : GoString) :
     (Soft.fill t d).get? f =
       match d.get? f with
       | some v => some v
       | none => if isField t f = true then some (fieldZero t f) else none := by
   unfold Soft.fill
-  rw [GoMap.get?_fill Rel.fromName Rel.zero t.rels ht.rels,
-    GoMap.get?_fill Attr.name Attr.zero t.attrs ht.attrs]
+  rw [GoMap.get?_fill_c19 Rel.fromName Rel.zero t.rels ht.rels,
+    GoMap.get?_fill_c19 Attr.name Attr.zero t.attrs ht.attrs]
   unfold isField fieldZero GoMap.has
   cases d.get? f <;> cases t.attrs.get? f <;> cases t.rels.get? f <;> simp
 
@@ -179,7 +179,7 @@ theorem Soft.checkData_get?_field {t : Typ} (ht : TypKeyed t) (d : GoMap GoVal) 
     (hf : isField t f = true) :
     (Soft.checkData t d).get? f = some ((d.get? f).getD (fieldZero t f)) := by
   have h2 : (Soft.fill t d).get? f = some ((d.get? f).getD (fieldZero t f)) := by
-    rw [Soft.get?_fill ht]; cases d.get? f <;> simp [hf]
+    rw [Soft.get?_fill_c19 ht]; cases d.get? f <;> simp [hf]
   rw [Soft.checkData_eq]; split
   · refine (GoMap.get?_filter (fun k => (Soft.fields t).contains k) _ f).trans ?_
     simp only [Soft.contains_fields ht, hf, if_true]; exact h2
@@ -207,7 +207,7 @@ theorem Soft.checkData_get?_nonfield {t : Typ} (ht : TypKeyed t) (d : GoMap GoVa
       · subst e; exact hmem
       · have hkf : isField t k = true := (isField_iff t k).2 (List.mem_append.1 hk)
         have : (Soft.fill t d).get? k ≠ none := by
-          rw [Soft.get?_fill ht]; cases d.get? k <;> simp [hkf]
+          rw [Soft.get?_fill_c19 ht]; cases d.get? k <;> simp [hkf]
         exact Classical.not_not.1 (fun hn => this ((GoMap.get?_eq_none_iff _ _).2 hn))
     have hle := hnd.length_le_of_subset hsub
     rw [Soft.fields_length]
